@@ -176,6 +176,10 @@ def check(ctx):
     # occurrences count: no set / dict keyed by the species stands between a reactant list and the terms built from it
     from ..multiplicity import rule as multiplicity_rule
     multiplicity_rule(ctx, "R10", ['grain'], "the surface rate coefficient")
+    # the grain components the rates are taken from follow the selected dust model: Network.grains is live, or reset by every public
+    # way of changing what it is built from, the grain_model setter included (shared with C14.R6)
+    from .c14 import _r6 as live_views
+    ctx.absorb(lambda sub: live_views(sub, package(sub.tree)), "R11", only=lambda o: "Network.grains:" in o.key and o.outcome != "MISSING")
 
 
 def _r9_refusal_not_caught(ctx, pkg):
